@@ -390,8 +390,8 @@ pub assume_specification<'a, T, P>[ syn::punctuated::Punctuated::<T, P>::pairs ]
         r.obeys_prophetic_iter_laws(),
         r.will_return_none(),
         r.remaining().len() == pseq(p).len(),
-        forall|i: int| #![auto] 0 <= i < pseq(p).len() ==> *pair_value(r.remaining()[i]) == pseq(p)[i]
-            && ((r.remaining()[i] is Punctuated) <==> (i + 1 < pseq(p).len() || ptrailing(p))),
+        forall|i: int| 0 <= i < pseq(p).len() ==> *pair_value(#[trigger] r.remaining()[i]) == pseq(p)[i],
+        forall|i: int| 0 <= i < pseq(p).len() ==> ((#[trigger] r.remaining()[i] is Punctuated) <==> (i + 1 < pseq(p).len() || ptrailing(p))),
         r.decrease() is Some,
 ;
 pub assume_specification<'a, T, P>[ <syn::punctuated::Pairs<'a, T, P> as core::iter::Iterator>::next ](it: &mut syn::punctuated::Pairs<'a, T, P>) -> (r: Option<<syn::punctuated::Pairs<'a, T, P> as core::iter::Iterator>::Item>);
